@@ -92,6 +92,11 @@ def isselectorsecure(selector: str) -> bool:
         and (selector.find(".\\") == -1)
         and (selector.find("\\\\") == -1)
         and (selector.find("\0") == -1)
+        # TAB, CR and LF delimit the fields and lines of a menu: a selector
+        # that contains one cannot be sent in a menu (nor in a gopher request)
+        and (selector.find("\t") == -1)
+        and (selector.find("\r") == -1)
+        and (selector.find("\n") == -1)
         # a trailing "/." names the same directory under another selector
         and not selector.endswith("/.")
     )
